@@ -182,6 +182,21 @@ def main():
         expected_status[len(jobs)] = sum(10 + k + 1 for k in range(len(names)))
         jobs.append(("intrinsic-namesake", "run", [("m.pn", fns + "fn main() -> i32\n{\n\tvar n: i32 = %s;\n\tprint!(\"n = \", n, \"\\n\");\n"
                                                       "\tif n == 0\n\t{\n\t\tpanic!(\"zero\\n\");\n\t}\n\treturn: n\n}\n" % calls)]))
+    # ... and private constants of those names
+    for names in (("write",), ("snprintf",), ("abort",), ("write", "snprintf", "abort")):
+        consts = "".join("const %s: i32 = %d;\n" % (nm, k + 5) for k, nm in enumerate(names))
+        expected_status[len(jobs)] = sum(k + 5 for k in range(len(names)))
+        jobs.append(("intrinsic-namesake-constant", "run", [("m.pn", consts + "fn main() -> i32\n{\n\tvar n: i32 = %s;\n\tprint!(\"n = \", n, \"\\n\");\n"
+                                                               "\tif n == 0\n\t{\n\t\tpanic!(\"zero\\n\");\n\t}\n\treturn: n\n}\n" % " + ".join(names))]))
+    # pointers to an opaque structure (nothing is known about it, in particular not its size): held in a constant, a
+    # variable, a parameter; advanced with `..`, indexed, compared, passed on - whatever is accepted has to be valid IR
+    opaque_head = "struct Owner;\nconst P: &Owner = 0x10;\nfn take(o: &Owner)\n{\n}\n"
+    for body in ("\tvar q: &Owner = &P .. 1usize;\n", "\tvar q: &Owner = &P;\n\t&q = &q .. 2usize;\n", "\ttake(&P .. 1usize);\n",
+                 "\tvar q: &Owner = &P;\n\ttake(&q);\n", "\tvar q: &Owner = &P;\n\ttake(&q .. 1usize);\n",
+                 "\tvar q: &Owner = &P;\n\tvar r: &Owner = &P;\n\tif &q == &r\n\t{\n\t\ttake(&q);\n\t}\n"):
+        jobs.append(("opaque-pointer", "verify", [("m.pn", opaque_head + "pub fn foo()\n{\n" + body + "}\n")]))
+    jobs.append(("opaque-pointer", "verify", [("m.pn", opaque_head + "const Q: &Owner = &P .. 1usize;\npub fn foo()\n{\n\ttake(&Q);\n}\n")]))
+    jobs.append(("opaque-pointer", "verify", [("m.pn", opaque_head + "pub fn foo(o: &Owner)\n{\n\ttake(&o .. 1usize);\n}\n")]))
     # every combination of `pub` / `extern` on the entry point and on a helper it calls: the entry point is externally
     # visible and uses the C convention whatever else it is declared as (Gen.linkage_spec, Gen.callconv_spec)
     for mflags in ("", "pub ", "extern ", "pub extern "):
